@@ -24,7 +24,7 @@ def assembleFrom (ss0 : List Stmt) : Outcome Assembly :=
           if !orgOK ss3 false then .diag else
           match assignAddrs ss3 0 with
           | .ok ss4 =>
-            match fixAll ss4 0 ss4 with
+            match fixAllL t ss4 with
             | .ok ss5 =>
               match evalSyms ss5 t t with
               | .ok t1 =>
